@@ -1049,6 +1049,14 @@ class Engine:
             if m.group(1) == "CopyForDeref":
                 loc, ty = self.parse_place(st, m.group(2), frame)
                 return dict(self.load(st, loc, ty))
+            if m.group(1) in ("PtrMetadata", "Len"):
+                try:
+                    v = self.eval_operand(st, m.group(2), frame) if m.group(1) == "PtrMetadata" else \
+                        dict(self.load(st, *self.parse_place(st, m.group(2), frame)))
+                    if ("n",) in v:          # symbolic slice (start, len) installed by a spec model
+                        return {(): z3.Int2BV(v[("n",)], 64)}
+                except ValueError:
+                    pass
             return {(): self.fresh_leaf(dest_ty, m.group(1))}
         # tuple
         if rv.startswith("(") and _matching(rv, 0) == len(rv) - 1:
@@ -1487,6 +1495,9 @@ class Engine:
     def _lit(self, val, iv):
         if z3.is_bv(val):
             return z3.BitVecVal(iv, val.size())
+        if iv == 255:
+            # Ordering::Less: discriminant -1 printed as an i8 bit pattern
+            return z3.IntVal(-1)
         return z3.IntVal(iv)
 
     def do_assert(self, st, cond_s, succ, frame):
